@@ -74,11 +74,16 @@ impl ConstraintAnalysis {
 
     /// Returns variables constrained in one or more steps by `source`.
     pub fn multi_step_constraint(&self, source: &VariableName) -> HashSet<VariableName> {
+        // Work-list closure: each variable is expanded once. The source itself is
+        // only part of the result if it can be reached in one or more steps.
         let mut result = HashSet::new();
-        let mut update = self.single_step_constraint(source);
-        while !update.is_subset(&result) {
-            result.extend(update.iter().cloned());
-            update = update.iter().flat_map(|source| self.single_step_constraint(source)).collect();
+        let mut worklist = vec![source];
+        while let Some(var) = worklist.pop() {
+            for sink in self.constraint_map.get(var).into_iter().flatten() {
+                if result.insert(sink.clone()) {
+                    worklist.push(sink);
+                }
+            }
         }
         result
     }
